@@ -1177,6 +1177,9 @@ CONDS = {
     "#ifdef M1": lambda d: "M1" in d,
     "#if defined(M2) || defined(IMP1)": lambda d: "M2" in d or "IMP1" in d,
     "#ifdef HDR_A": lambda d: "HDR_A" in d,
+    "#ifdef HDR_C": lambda d: "HDR_C" in d,
+    "#ifdef CFG_A": lambda d: "CFG_A" in d,
+    "#if defined(CFG_B) && !defined(CFG_A)": lambda d: "CFG_B" in d and "CFG_A" not in d,
     "#ifdef USER": lambda d: "USER" in d,
     "#if defined(_OPENMP) && defined(__SYCL_DEVICE_ONLY__)": lambda d: "_OPENMP" in d and "__SYCL_DEVICE_ONLY__" in d,
     "#if defined(EXTRA_NV) && __CUDA_ARCH__ == 750": lambda d: "EXTRA_NV" in d and _num(d, "__CUDA_ARCH__") == 750,
@@ -1263,20 +1266,27 @@ name = "dev-b"
 defines = ["__SYCL_DEVICE_ONLY__"]
 modes = ["m1"]
 
+[[compiler.mycc.passes]]
+name = "dev-c"
+include_files = ["pre_c.h"]
+
 [compiler.mpicc]
 alias_of = "mycc"
 
 [compiler.nvcc]
 options = ["-DEXTRA_NV"]
 """
-E2E_HEADERS = {"pre_a.h": "#define HDR_A 1\n"}
+E2E_HEADERS = {"pre_a.h": "#define HDR_A 1\n", "pre_c.h": "#define HDR_C 1\n"}
+# `#include <cfg.h>` (first line of some sources) is found in the first -I directory that has it
+E2E_INCDIRS = {"inc_a": "#define CFG_A 1\n", "inc_b": "#define CFG_B 1\n"}
+CFG_INCLUDE = "#include <cfg.h>"
 
 
 def gen_e2e(rng, builtin):
     comps, _ = spec_load(builtin, E2E_USER)
     case = {"stream": "e2e", "config": E2E_USER, "sources": {}, "platforms": {}}
     for k in range(rng.randint(1, 2)):
-        case["sources"][f"s{k}.cpp"] = gen_guarded_source(rng)
+        case["sources"][f"s{k}.cpp"] = ([CFG_INCLUDE] if rng.random() < 0.6 else []) + gen_guarded_source(rng)
     for pname in rng.sample(["cpu", "gpu", "fpga", "host"], rng.randint(1, 3)):
         entries = []
         for _c in range(rng.randint(1, 2)):
@@ -1292,15 +1302,27 @@ def gen_e2e(rng, builtin):
                     if r["action"] == "append_const":
                         items.append(("rule", i, rng.choice(r["flags"]), None, None))
                     elif r["action"] == "store_split":
-                        pool = ["a", "b", "a,b"] if comp_name in ("mycc", "mpicc") else ["spir64", "spir64_gen,nvptx64-nvidia-cuda", "spir64_x86_64"]
+                        pool = ["a", "b", "a,b", "c", "a,c", "c,b"] if comp_name in ("mycc", "mpicc") else ["spir64", "spir64_gen,nvptx64-nvidia-cuda", "spir64_x86_64"]
                         items.append(("rule", i, r["flags"][0], rng.choice(pool), rng.choice(["eq", "sep"])))
                     elif r["action"] == "extend_match":
                         items.append(("rule", i, rng.choice(r["flags"]), rng.choice(["sm_80", "sm_70,sm_90", "arch=compute_75,code=sm_75"]), "eq"))
+            for dname in rng.sample(sorted(E2E_INCDIRS), rng.choice([0, 0, 1, 1, 2])):
+                items.append(("I", dname, rng.random() < 0.5))
             rng.shuffle(items)
             items.append(("raw", ["-c"]))
             items.append(("file", nm))
-            entries.append({"file": nm, "compiler": rng.choice([comp_name, "/usr/bin/" + comp_name]), "argv": render(items, rules),
-                            "items": [list(i) for i in items]})
+            cname = rng.choice([comp_name, "/usr/bin/" + comp_name])
+            entries.append({"file": nm, "compiler": cname, "argv": render(items, rules), "items": [list(i) for i in items]})
+            if rng.random() < 0.35:
+                # a second command for the same file that differs from the first only in what it includes
+                # (other -I directories, or a flag whose passes declare include files only)
+                twin = [i for i in items if i[0] != "I" and not (i[0] == "rule" and rules[i[1]]["action"] == "store_split")]
+                extra = [("I", dn, rng.random() < 0.5) for dn in rng.sample(sorted(E2E_INCDIRS), rng.randint(0, 2))]
+                if comp_name in ("mycc", "mpicc") and rng.random() < 0.6:
+                    i_split = next(i for i, r in enumerate(rules) if r["action"] == "store_split")
+                    extra.append(("rule", i_split, rules[i_split]["flags"][0], "c", rng.choice(["eq", "sep"])))
+                twin = extra + twin
+                entries.append({"file": nm, "compiler": cname, "argv": render(twin, rules), "items": [list(i) for i in twin]})
         case["platforms"][pname] = entries
     return case
 
@@ -1324,8 +1346,15 @@ def e2e_case(ck, case):
                 for h in cfg["include_files"]:
                     for m in re.findall(r"#define (\w+)", E2E_HEADERS.get(h, "")):
                         dd.setdefault(m, "1")
+                if srcs[e["file"]][0] == CFG_INCLUDE:
+                    for ip in cfg["include_paths"]:
+                        if ip in E2E_INCDIRS:
+                            for m in re.findall(r"#define (\w+)", E2E_INCDIRS[ip]):
+                                dd.setdefault(m, "1")
+                            break
                 for no in active_lines(srcs[e["file"]], dd):
-                    want[e["file"]][no].add(pname)
+                    if no in want[e["file"]]:
+                        want[e["file"]][no].add(pname)
                 spec_entries.append([e["file"], p, cfg["defines"], cfg["include_paths"], cfg["include_files"]])
     report = {"spec": {nm: {no: sorted(v) for no, v in a.items()} for nm, a in want.items()}}
     with core.Scratch() as d:
@@ -1335,6 +1364,10 @@ def e2e_case(ck, case):
             f.write(case["config"])
         for h, t in E2E_HEADERS.items():
             with open(os.path.join(root, h), "w") as f:
+                f.write(t)
+        for dn, t in E2E_INCDIRS.items():
+            os.makedirs(os.path.join(root, dn))
+            with open(os.path.join(root, dn, "cfg.h"), "w") as f:
                 f.write(t)
         for nm, lines in srcs.items():
             with open(os.path.join(root, nm), "w") as f:
